@@ -17,7 +17,6 @@ package internal
 import (
 	"maps"
 	"net/http"
-	"slices"
 	"time"
 )
 
@@ -77,13 +76,6 @@ func (r *responseStorer) StoreResponse(
 		return err
 	}
 
-	switch {
-	case refs == nil:
-		refs = make(ResponseRefs, 0, 1)
-	case cap(refs) <= len(refs)+1:
-		refs = slices.Grow(refs, 1)
-	}
-
 	refEntry := &ResponseRef{
 		Vary:         vary,
 		VaryResolved: varyResolved,
@@ -91,11 +83,23 @@ func (r *responseStorer) StoreResponse(
 		ResponseID:   responseID,
 	}
 
-	if refIndex < 0 || refIndex >= len(refs) {
-		refs = append(refs, refEntry) // New response reference
-	} else {
-		refs[refIndex] = refEntry // Update existing response reference
+	// Rebuild the index: the reference being replaced (refIndex) and any
+	// existing reference to the same variant are dropped before the new one is
+	// added, so repeated requests for one variant never grow the index.
+	updated := make(ResponseRefs, 0, len(refs)+1)
+	for i, ref := range refs {
+		if ref == nil || i == refIndex || sameVariant(ref, refEntry) {
+			continue
+		}
+		updated = append(updated, ref)
 	}
+	updated = append(updated, refEntry)
 
-	return r.cache.SetRefs(urlKey, refs)
+	return r.cache.SetRefs(urlKey, updated)
+}
+
+// sameVariant reports whether two references denote the same stored variant:
+// the same response ID selected by the same resolved header values.
+func sameVariant(a, b *ResponseRef) bool {
+	return a.ResponseID == b.ResponseID && maps.Equal(a.VaryResolved, b.VaryResolved)
 }
